@@ -31,7 +31,7 @@ REQUIRED_MONITORS = ["weights_nonnegative", "weights_sum_to_one", "flat_unchange
 REQUIRED_BUCKETS = {"quick": ["geom:pinhole", "geom:slit(L,0)", "geom:slit(0,W)", "geom:slit(L,W)", "geom:2d",
                               "grid:linear", "grid:log", "grid:irregular", "qcalc:default", "qcalc:user", "n:1", "n:2",
                               "sigma>q", "zero_width", "grid_extension_hits_zero", "perpoint", "directmodel", "directmodel:mixed-zero", "directmodel:widths-changed-on-same-data-object", "q-order:not-ascending", "acc:low", "acc:med", "acc:high",
-                              "acc:xhigh", "2d:on-axis-pixels", "q-grid:value-listed-twice"]}
+                              "acc:xhigh", "2d:on-axis-pixels", "q-grid:value-listed-twice", "q-grid:end-point-listed-twice"]}
 REQUIRED_BUCKETS["thorough"] = REQUIRED_BUCKETS["quick"]
 
 _state = {"installed": False, "current": None, "evals": 0}
@@ -196,10 +196,20 @@ def run_batch(case, rec):
             rec.bucket("q-order:not-ascending")
         if k % 11 == 6 and n > 2 and geom != "2d":
             # a measured grid that lists a q value twice (merged detector settings that overlap in one point)
-            j_ = int(rng.integers(n))
+            j_ = int(rng.integers(n)) if rng.random() < 0.4 else int(rng.choice([0, n - 1]))   # often an end point
             q = np.insert(q, j_, q[j_])
             n = len(q)
             rec.bucket("q-grid:value-listed-twice")
+        end_twice = (geom == "pinhole" and k == 6 + (case["batch"] % 2)*5) or (geom == "pinhole" and k in (6, 11) and n <= 2)
+        if geom == "pinhole" and k in (6, 11):
+            # constructive: a log grid over one and a half decades whose lowest (or highest) value is listed twice, widths
+            # larger than q, automatic calculation grid
+            kind = "log"
+            q = np.logspace(-4.2, -2.7, 12)
+            q = np.insert(q, 0, q[0]) if k == 6 else np.append(q, q[-1])
+            n = len(q)
+            end_twice = True
+            rec.bucket("q-grid:end-point-listed-twice")
         hits_zero = (geom == "pinhole" and k == 2)
         if hits_zero:
             # constructive: the symmetric linear extension of this grid lands exactly on q = 0
@@ -221,6 +231,9 @@ def run_batch(case, rec):
                     sig = np.zeros(n)
                 if hits_zero:
                     sig, perpoint, user_qcalc, zero = np.full(n, 0.002), False, False, False
+                    ctx["user_q_calc"] = False
+                if end_twice and k in (6, 11):
+                    sig, perpoint, user_qcalc, zero = q*float(rng.uniform(1.5, 2.5)), False, False, False
                     ctx["user_q_calc"] = False
                 if np.any(sig > q):
                     rec.bucket("sigma>q")
